@@ -168,6 +168,7 @@ const (
 	opTrimAllC1
 	opTrimAllC2
 	opTrunc7 // far back: past whole read-only segments that are no longer in the segment cache
+	opTruncBelowFirst
 	nOps
 )
 
@@ -175,7 +176,7 @@ var opNames = []string{"Append(small)", "Append(large)", "AppendAsync(small)", "
 	"TruncateLog(-1)", "TruncateLog(appended)", "TruncateLog(appended-1)", "TruncateLog(appended-2)", "TruncateLog(appended-3)",
 	"Clear", "Close+Reopen", "Append@5-on-empty",
 	"Trim(cutoff=ts(first+1),commit=first)", "Trim(cutoff=ts(first+1),commit=first+1)", "Trim(cutoff=ts(first+1),commit=last)",
-	"Trim(cutoff=all,commit=first)", "Trim(cutoff=all,commit=first+1)", "Trim(cutoff=all,commit=last)", "TruncateLog(appended-7)"}
+	"Trim(cutoff=all,commit=first)", "Trim(cutoff=all,commit=first+1)", "Trim(cutoff=all,commit=last)", "TruncateLog(appended-7)", "TruncateLog(first-1)"}
 
 func viol(key, msg string) *ev.Violation { return &ev.Violation{Key: key, Message: msg} }
 
@@ -269,6 +270,39 @@ func (in *inst) Step(op int) (bool, *ev.Violation) {
 		}
 		in.entries = in.entries[:o-in.entries[0].off+1]
 		in.synced = o
+	case opTruncBelowFirst:
+		// A log that starts above 0 with nothing on disk below its first entry (a follower after a snapshot at
+		// first-1), cut back to the entry in front of it: nothing is left, as after TruncateLog(-1).
+		if len(in.entries) == 0 || in.first <= 0 || in.lowDisk != in.first {
+			return false, nil
+		}
+		o := in.first - 1
+		type res struct {
+			r   int64
+			err error
+		}
+		done := make(chan res, 1)
+		w := in.w
+		go func() {
+			r, err := w.TruncateLog(o)
+			done <- res{r, err}
+		}()
+		select {
+		case x := <-done:
+			if x.err != nil {
+				return true, viol("truncate-failed:"+classify(x.err), fmt.Sprintf("TruncateLog(%d) first=%d appended=%d: %v", o, in.first, in.appended(), x.err))
+			}
+			if x.r != -1 {
+				return true, viol("truncate-result", fmt.Sprintf("TruncateLog(%d) on a log holding %d..%d returned %d", o, in.first, in.appended(), x.r))
+			}
+		case <-time.After(30 * time.Second):
+			// not a timing oracle: the call waits for a lock its own goroutine holds; the instance is lost
+			in.w = nil
+			in.broken = viol("truncate-does-not-return", fmt.Sprintf("TruncateLog(%d) on a log holding %d..%d has not returned after 30 seconds", o, in.first, in.appended()))
+			return true, in.broken
+		}
+		in.entries = nil
+		in.synced, in.first, in.lowDisk = -1, -1, -1
 	case opReopen:
 		if err := in.w.Close(); err != nil {
 			return true, viol("close-failed", err.Error())
@@ -556,7 +590,7 @@ func main() {
 		"filesystem is /dev/shm; no crash (C10 covers crashes)"}
 	// distinct_nontrivial = distinct canonical states reached (each is a different WAL content/layout)
 	run.DistinctN(run.Get("distinct_states"))
-	os.Exit(run.Finish("BFS over all operation sequences up to max_depth from a 19-operation alphabet per (segment size, payload size, sync mode) configuration; a state is distinct when its canonical key (model entries, generations, segment layout, cache) differs"))
+	os.Exit(run.Finish(fmt.Sprintf("BFS over all operation sequences up to max_depth from a %d-operation alphabet per", nOps) + " (segment size, payload size, sync mode) configuration; a state is distinct when its canonical key (model entries, generations, segment layout, cache) differs"))
 }
 
 func opAppS2() string { return opNames[opAppL] }
